@@ -247,6 +247,63 @@ pub fn scenarios(prop: &str, tier: Tier) -> Vec<Box<dyn Scenario>> {
                 c("mapref_fold", vec![PVar, Fst(0), Var, Fold(vec![1, 2, 1])], vec![3], l),
             ]
         }
+        "C17" => {
+            let mut v = scenarios("C15", tier);
+            v.extend(scenarios("C16", tier));
+            v
+        }
+        "C18" => {
+            use crate::maps::*;
+            use std::marker::PhantomData;
+            let keys = if q { 4 } else { 6 };
+            vec![
+                Box::new(SymFold::<std::collections::BTreeMap<u8, crate::term::SV>> { keys, ph: PhantomData }),
+                Box::new(SymFold::<std::rc::Rc<std::collections::BTreeMap<u8, crate::term::SV>>> { keys, ph: PhantomData }),
+                Box::new(SymFold::<im_rc::OrdMap<u8, crate::term::SV>> { keys, ph: PhantomData }),
+            ]
+        }
+        "C15" => {
+            use crate::maps::*;
+            use im_rc::OrdMap;
+            use std::collections::BTreeMap;
+            use std::marker::PhantomData;
+            use std::rc::Rc;
+            let keys = if q { 3 } else { 3 };
+            let len = if q { 5 } else { 6 };
+            let mut v: Vec<Box<dyn Scenario>> = vec![];
+            let ops = [
+                OpKind::Map,
+                OpKind::FilterMap,
+                OpKind::Mapi,
+                OpKind::FilterMapi,
+                OpKind::Fold { update: false, revert: false },
+                OpKind::Fold { update: false, revert: true },
+                OpKind::Fold { update: true, revert: false },
+                OpKind::Fold { update: true, revert: true },
+            ];
+            for op in ops {
+                v.push(Box::new(MapOps::<BTreeMap<u8, crate::term::SV>> { op, len, keys, ph: PhantomData }));
+                v.push(Box::new(MapOps::<Rc<BTreeMap<u8, crate::term::SV>>> { op, len, keys, ph: PhantomData }));
+                v.push(Box::new(MapOps::<OrdMap<u8, crate::term::SV>> { op, len, keys, ph: PhantomData }));
+            }
+            for op in [Op2::MergeBTree, Op2::MergeOrd, Op2::PartitionOrd, Op2::PartitionMapiOrd] {
+                let two = matches!(op, Op2::MergeBTree | Op2::MergeOrd);
+                v.push(Box::new(MapOps2 { op, len: len + 1, keys: if two { 2 } else { keys } }));
+            }
+            v
+        }
+        "C16" => {
+            use crate::maps::*;
+            let mut v: Vec<Box<dyn Scenario>> = vec![];
+            for ord in [false, true] {
+                for filter in [false, true] {
+                    for fam in [Fam::Pure, Fam::Map2Outer, Fam::BindOnValue, Fam::IgnoresInput, Fam::SharedNode] {
+                        v.push(Box::new(PerKey { ord, filter, fam, len: if q { 5 } else { 6 }, keys: 2 }));
+                    }
+                }
+            }
+            v
+        }
         "C14" => vec![Box::new(crate::c14::DynSum { len: if q { 6 } else { 8 }, with_bind: false }), Box::new(crate::c14::DynSum { len: if q { 5 } else { 7 }, with_bind: true })],
         "C20" => vec![Box::new(crate::c20::Memo { len: if q { 6 } else { 8 }, recursive: false }), Box::new(crate::c20::Memo { len: if q { 6 } else { 8 }, recursive: true })],
         "C19" => vec![Box::new(crate::c19::HeightLimit { max_n: if q { 6 } else { 10 } }), Box::new(crate::c19::Misuse)],
@@ -403,6 +460,42 @@ pub fn meta(prop: &str, tier: Tier) -> PropMeta {
             assumptions: common_assume,
             rule: "as C01",
             must_cover: vec!["state-dropped-before-handles", "leak-check-after-stabilise"],
+        },
+        "C15" | "C16" | "C17" => {
+            let maps_fns = vec![
+                "incremental_map::IncrMap::{incr_map, incr_filter_map, incr_mapi, incr_filter_mapi, incr_unordered_fold, incr_unordered_fold_update, incr_unordered_fold_with}",
+                "incremental_map::btree_map::{IncrBTreeMap::{incr_mapi_, incr_mapi_cutoff, incr_filter_mapi_, incr_filter_mapi_cutoff, incr_merge}, incr_filter_mapi_generic_btree_map, merge_shared_impl}",
+                "incremental_map::im_rc::{IncrOrdMap::{incr_mapi_, .., incr_merge, incr_partition, incr_partition_mapi}, PartitionMapi, incr_filter_mapi_ordmap, merge_shared_impl, DiffElement::from_diff_item}",
+                "incremental_map::symmetric_fold::{SymmetricFoldMap for BTreeMap / Rc<BTreeMap> / OrdMap, SymmetricDiff, MergeOnce, MergeOnceWith}, WithOldIO::{with_old_input_output, with_old_input_output2}",
+                "incremental::Incr::{map_with_old, map_cyclic, zip}, incremental::expert::* (per-key operators), im_rc::OrdMap::{diff, insert, remove, ==} (third-party, executed not trusted)",
+            ];
+            let b = match prop {
+                "C15" => format!("each of {{incr_map, incr_filter_map, incr_mapi, incr_filter_mapi, incr_unordered_fold x (with/without update) x (with/without revert_to_init_when_empty)}} on each of BTreeMap, Rc<BTreeMap>, OrdMap; incr_merge on BTreeMap and OrdMap; incr_partition and incr_partition_mapi on OrdMap. Key universe 3 (merge: 2 per side), every history of {} (merge/partition: {}) actions from {{insert fresh symbolic value at key k, re-insert the equal value, remove k, clear, refill all keys, observe / unobserve the output, stabilise}}. User functions are uninterpreted (g(v), g(k,v), filter predicates), folds add w(k,v) with + and remove it with -, update adds w(k,new)-w(k,old); output compared entry by entry (validity queries) with the plain definition on the current input", l(5, 6), l(6, 7)),
+                "C16" => format!("incr_mapi_ and incr_filter_mapi_ (plain, _cutoff(PartialEq), _cutoff(Never): symbolic choice) on BTreeMap and OrdMap x the five per-key function families of the property (pure map of the value; map2 with an outer var; bind on the value choosing between a map of an outer var and a second outer var by an uninterpreted predicate; ignores its input; returns one shared pre-existing node). Key universe 2, every history of {} actions from {{insert fresh value at k (new key or value change), remove k, write outer var(s), observe / unobserve, stabilise}}", l(5, 6)),
+                _ => format!("the scenarios of C15 and C16 (same bounds) with every call of a user function logged by (role, key): calls only for keys whose presence or value (solver-decided) differs between the input at the operator's previous run and the current one, at most once per key and role; the per-key graph builder only for keys that appeared; per-key functions only for changed keys unless another variable changed; nothing while unobserved"),
+            };
+            PropMeta {
+                level: "other",
+                functions: maps_fns,
+                bounds: b,
+                outside: vec!["key universes larger than stated, key types other than u8, histories longer than stated", "Cutoff::Always / arbitrary cutoff functions on per-key nodes", "im_rc::HashMap"],
+                assumptions: common_assume,
+                rule: "as C01",
+                must_cover: match prop {
+                    "C15" => vec!["equal-value-written-again", "map-emptied", "operator-observed-again"],
+                    "C16" => vec!["key-added-later", "key-removed", "value-of-existing-key-changed", "operator-observed-again"],
+                    _ => vec!["incremental-update-ran-user-function"],
+                },
+            }
+        }
+        "C18" => PropMeta {
+            level: "other",
+            functions: vec!["incremental_map::symmetric_fold::SymmetricFoldMap::symmetric_fold for BTreeMap, Rc<BTreeMap>, im_rc::OrdMap (public trait)", "SymmetricDiff::next, MergeOnce::next, DiffElement::from_diff_item, im_rc::OrdMap::diff (third-party, executed)"],
+            bounds: format!("symx half: every pair of maps over a key universe of {} where each key is absent / left only / right only / in both with the same value term / in both with independent symbolic values (value equality decided by the solver), for each of the three map types; the visit sequence of symmetric_fold is compared with the expected one (keys, order, variant, values by validity query). Kani half: see kani_bounds", if q { 4 } else { 6 }),
+            outside: vec!["key universes beyond the bound; key types other than u8; the ordered merge inside incr_merge is exercised by C15 through the operator, its kernel by the Kani half"],
+            assumptions: common_assume,
+            rule: "as C01",
+            must_cover: vec!["both-present-values-differ", "both-present-values-equal", "nothing-visited-for-equal-maps"],
         },
         "C14" => PropMeta {
             level: "other",
